@@ -121,6 +121,38 @@ pub fn scenarios(prop: &str, tier: &str) -> Vec<Scenario> {
                 }
             }
         }
+        // C03: resolution far finer than the step (edges of 100 L and more). A cap on the number
+        // of validity queries per motion, or any spacing derived from the step instead of L, shows
+        // only here. Reduced alphabet (start + the 4-letter sub-alphabet) because one motion check
+        // costs thousands of queries.
+        if prop == "C03" && kit != "SE2" && kit != "SE3" {
+            let mut letters: Vec<usize> = vec![b.start];
+            letters.extend(b.sub4.iter().map(|&i| i as usize));
+            let alphabet: Vec<crate::kit::V> = letters.iter().map(|&i| b.alphabet[i].clone()).collect();
+            let fine: &[f64] = if thorough { &[0.002, 0.0005] } else { &[0.001] };
+            for &f in fine {
+                for pk in Pk::ALL {
+                    for w in [b.world_free(), b.world_named("subset0001", vec![b.obstacles[0].clone()])] {
+                        let mut spec = b.spec.clone();
+                        match &mut spec {
+                            Spec::Rv { frac, .. } | Spec::So2 { frac, .. } | Spec::So3 { frac, .. } => *frac = Some(f),
+                            Spec::Cmp { parts, .. } => {
+                                for p in parts.iter_mut() {
+                                    if let Spec::Rv { frac, .. } | Spec::So2 { frac, .. } | Spec::So3 { frac, .. } = p {
+                                        *frac = Some(f)
+                                    }
+                                }
+                            }
+                            _ => {}
+                        }
+                        let mut sc = b.scenario(w.clone(), b.params(pk, 1e6, 2.5, 0.0), &format!("C03/{kit}/{}/{}x1e6/r2.5/fine{f}", w.name, pk.name()));
+                        sc.spec = spec;
+                        sc.alphabet = alphabet.clone();
+                        out.push(sc);
+                    }
+                }
+            }
+        }
     }
     out
 }
@@ -256,7 +288,7 @@ fn path_json<K: Kit>(p: &[K::S]) -> Value {
 
 fn replay_json<K: Kit>(prop: &str, tier: &str, idx: usize, sc: &Scenario, seq: &[u8], call: usize, path: Option<&[K::S]>, extra: Value) -> Value {
     json!({
-        "kind": "paths", "prop": prop, "tier": tier, "scenario_index": idx, "seq": seq, "call": call,
+        "kind": "paths", "prop": prop, "tier": tier, "scenario_index": idx, "seq": seq, "call": call, "split": crate::explore::SPLIT.with(|s| s.get()),
         "scenario": sc.json(), "path": path.map(|p| path_json::<K>(p)), "detail": extra,
     })
 }
@@ -502,7 +534,7 @@ fn run_kit<K: Kit>(prop: &'static str, tier: &'static str, scs: &[(usize, Scenar
     let idx_of: std::collections::HashMap<String, usize> = scs.iter().map(|(i, s)| (s.tag.clone(), *i)).collect();
     let only: Vec<Shard> = shard_list.into_iter().map(|(_, s)| s).collect();
     let logging = prop == "C03";
-    let r = par_explore::<K>(&only, logging, &|sc, seq, r, rep| {
+    let r = par_explore::<K>(&only, logging, true, tier != "quick", &|sc, seq, r, rep| {
         let idx = idx_of[&sc.tag];
         judge::<K>(prop, tier, idx, sc, seq, r, rep)
     });
@@ -594,6 +626,7 @@ pub fn replay(v: &Value) -> i32 {
     let seq: Vec<u8> = v["seq"].as_array().unwrap().iter().map(|x| x.as_u64().unwrap() as u8).collect();
     let all = scenarios(prop, tier);
     let sc = &all[idx];
+    let split = v["split"].as_u64().unwrap_or(0) as usize;
     let d1 = with_kit!(sc.kit, digest_of(sc, &seq, true));
     let d2 = with_kit!(sc.kit, digest_of(sc, &seq, true));
     if d1 != d2 {
@@ -601,7 +634,7 @@ pub fn replay(v: &Value) -> i32 {
         return 2;
     }
     let mut rep = Report::new();
-    with_kit!(sc.kit, replay_one(prop, tier, idx, sc, &seq, &mut rep));
+    with_kit!(sc.kit, replay_one(prop, tier, idx, sc, &seq, split, &mut rep));
     if rep.viol_counts.is_empty() {
         crate::report::out(&format!("replay: property {prop} holds on this history"));
         0
@@ -613,7 +646,7 @@ pub fn replay(v: &Value) -> i32 {
         1
     }
 }
-fn replay_one<K: Kit>(prop: &'static str, tier: &'static str, idx: usize, sc: &Scenario, seq: &[u8], rep: &mut Report) {
-    let r = run_history::<K>(sc, seq, true);
+fn replay_one<K: Kit>(prop: &'static str, tier: &'static str, idx: usize, sc: &Scenario, seq: &[u8], split: usize, rep: &mut Report) {
+    let r = crate::explore::run_history_split::<K>(sc, seq, true, split);
     judge::<K>(prop, tier, idx, sc, seq, r, rep);
 }
